@@ -276,7 +276,13 @@ pub fn host_with_copy(rng: &mut Rng, p: &GDesc) -> GDesc {
 
 pub type PgPat = (GDesc, Option<usize>);
 
-pub fn pg_case(kind: &str, pats: &[PgPat], fallback_fail: bool, heur: &Heur, hosts: &[GDesc]) {
+pub fn pg_case(
+    kind: &str,
+    pats: &[PgPat],
+    fallback_fail: bool,
+    heur: &Heur,
+    hosts: &[GDesc],
+) -> Option<crate::e2e::E2EResult> {
     let mut l = Line::new(kind);
     l.tok("G");
     l.list(pats, |l, (g, r)| {
@@ -305,7 +311,7 @@ pub fn pg_case(kind: &str, pats: &[PgPat], fallback_fail: bool, heur: &Heur, hos
         enc_pgcons,
         key_string,
         enc_pgmap,
-    );
+    )
 }
 
 pub fn gen_pg_set(rng: &mut Rng, thorough: bool, allow_noroot: bool) -> Vec<PgPat> {
